@@ -290,6 +290,12 @@ func init() {
 		Run: func(c *RunCtx, unit int) {
 			r := Rng(c.Seed, "C17", unit)
 			cfg := randomCfg(r, "auth")
+			if unit%3 == 1 {
+				// an application that trusts the register whitelist: its user type stores the whole map
+				// PutArbitrary hands it, and the whitelist names profile fields only (or nothing at all)
+				cfg.RegWhitelist = [][]string{{}, {"name"}, {"name", "nick"}}[(unit/3)%3]
+				cfg.PersistArbitrary = true
+			}
 			s, err := sim.New(cfg, r, sim.SeedOpt{Accounts: 3, Browsers: 3, TwoFAProb: 0.3, Unconfirmed: 0.2})
 			if err != nil {
 				c.Stats.Inconclusive = append(c.Stats.Inconclusive, "world: "+err.Error())
